@@ -116,6 +116,7 @@ type genOpts struct {
 	pureMapBody   bool  // ... with a probe-free body, so call order does not depend on the visiting order (C13/C14)
 	tolerant      bool  // emit uses of the unbound identifier zz
 	toleratedOnly bool  // ... only where the property tolerates it (programs that must still render: probes + zz)
+	lateLet       bool  // ... and the program may END with `let zz = 7`: a binding the reads before it must never see, in this render or in any other (leak detector)
 	failing       bool  // may emit one naturally failing statement
 	failPct       int   // ... with this probability (default 100)
 	failNested    bool  // instead: one failing operation somewhere nested, guarded by a marker probe
@@ -345,6 +346,11 @@ func (g *gen) maybeProbe(e string, k kind, class string, force bool) string {
 		s := g.newSite(pkMethod, class, k)
 		g.feat("probe_method_value_receiver")
 		return fmt.Sprintf("vobj.PV(%d, %s)", s.ID, e)
+	case 4:
+		// same probe with THREE results, the error last
+		s := g.newSite(pkValue, class, k)
+		g.feat("probe_value_three_results")
+		return fmt.Sprintf("pv3(%d, %s)", s.ID, e)
 	case 3:
 		// same probe, but the helper's last result is declared as an interface that EMBEDS error
 		// (not the plain error type): still a helper that returns an error
@@ -979,6 +985,10 @@ func (g *gen) piece(depth int) {
 	case 10:
 		g.fnPiece(depth)
 	case 11:
+		if g.inFor == 0 && g.inFn == 0 && g.pct("ittwice", 15) {
+			g.iteratorTwicePiece()
+			break
+		}
 		g.arrayPiece(depth)
 	case 12:
 		g.hashPiece(depth)
@@ -1307,6 +1317,30 @@ func (g *gen) multiStmtTagPiece(depth int) {
 	g.cur.write("%>")
 }
 
+// iteratorTwicePiece: an iterator value kept in a variable and looped over twice (the second loop finds it exhausted)
+func (g *gen) iteratorTwicePiece() {
+	g.feat("iterator_variable_looped_twice")
+	r, i := g.fresh("it"), g.fresh("e")
+	src := []string{"range(1, 3)", "until(3)", "between(0, 4)"}[g.intn("itsrc", 0, 2)]
+	g.frames = 0
+	g.tag("<%", "let "+r+" = "+src, "%>")
+	for n := 0; n < 2; n++ {
+		g.tag("<%=", "for ("+i+") in "+r+" {", "%>")
+		g.tag("<%=", i, "%>")
+		g.cur.write(",")
+		g.tag("<%", "}", "%>")
+		g.cur.write("|")
+	}
+	// and a nested pair of fresh iterators afterwards
+	j := g.fresh("e")
+	g.tag("<%=", "for ("+i+") in range(1, 2) {", "%>")
+	g.tag("<%=", "for ("+j+") in range(1, 3) {", "%>")
+	g.tag("<%=", i+" * 10 + "+j, "%>")
+	g.cur.write(" ")
+	g.tag("<%", "}", "%>")
+	g.tag("<%", "}", "%>")
+}
+
 func (g *gen) arrayPiece(depth int) {
 	g.feat("array_var")
 	name := g.fresh("arr")
@@ -1522,20 +1556,47 @@ func (g *gen) partialPiece(depth int) {
 	}
 	// the call, in the current template
 	g.frames = 0
+	data := `"pa": ` + g.expr(kInt, 1, "hash-value") + `, "ps": ` + g.expr(kStr, 1, "hash-value")
+	if layout != "" {
+		data += `, "layout": "` + layout + `"`
+	}
+	arg := "{" + data + "}"
+	twice := false
+	if g.inFn == 0 && g.pct("partialvar", 25) {
+		// the data is a map held in a VARIABLE (not a literal evaluated afresh per call), and the same map object
+		// reaches partial() twice: the partial and its layout must render the same both times
+		g.feat("partial_data_from_variable")
+		po := g.fresh("po")
+		g.tag("<%", "let "+po+" = "+arg, "%>")
+		g.nl()
+		g.frames = 0
+		arg = po
+		twice = g.pct("partialtwice", 70)
+	}
 	fs := &Site{Kind: pkFeeder, Tmpl: g.cur.name, Class: "partial", Name: name, Late: g.late, Ctx: g.curCtx()}
 	g.p.FeederSites[name] = fs
 	g.pending = append(g.pending, fs)
 	g.siteLog = append(g.siteLog, fs)
-	data := `"pa": ` + g.expr(kInt, 1, "hash-value") + `, "ps": ` + g.expr(kStr, 1, "hash-value")
 	if layout != "" {
 		ls := &Site{Kind: pkFeeder, Tmpl: g.cur.name, Class: "layout", Name: layout, Late: g.late, Ctx: g.curCtx()}
 		g.p.FeederSites[layout] = ls
 		g.pending = append(g.pending, ls)
 		g.siteLog = append(g.siteLog, ls)
-		data += `, "layout": "` + layout + `"`
 	}
 	tagLine := g.cur.line // the line on which the partial tag begins (the tag itself may be split across lines)
-	g.tag("<%=", `partial("`+name+`", {`+data+`})`, "%>")
+	if twice && g.o.splitTags {
+		// both calls must begin on the same line (the sites inside the partial carry ONE outer line)
+		save := g.o.splitTags
+		g.o.splitTags = false
+		g.tag("<%=", `partial("`+name+`", `+arg+`)`, "%>")
+		g.tag("<%=", `partial("`+name+`", `+arg+`)`, "%>")
+		g.o.splitTags = save
+	} else {
+		g.tag("<%=", `partial("`+name+`", `+arg+`)`, "%>")
+		if twice {
+			g.tag("<%=", `partial("`+name+`", `+arg+`)`, "%>")
+		}
+	}
 	top := g.cur.top
 	if top == 0 {
 		top = tagLine
@@ -1637,7 +1698,11 @@ func (g *gen) bigPiece() {
 // noisePiece: material that moves line numbers but contains no probes.
 func (g *gen) noisePiece() {
 	g.feat("noise")
-	switch g.intn("noise", 0, 23) {
+	switch g.intn("noise", 0, 25) {
+	case 24: // an identifier with a dash and a digit in it ('-' is a letter for plush) directly followed by a newline
+		g.cur.write("<% let " + g.fresh("ms") + " = (zq-1\n == nil) %>\n<% let " + g.fresh("ms") + " = (zq-2-x9\n\n != 3) %>")
+	case 25: // numbers and dotted paths directly followed by a newline
+		g.cur.write("<% let " + g.fresh("ms") + " = [1,\n2.5\n, 3\n] %><% let " + g.fresh("ms") + " = (obj.Name\n == \"bot\") %>")
 	case 21: // comment tags closed with "-%>" (legal today: the dash is comment text), followed by blanks / CRLF
 		g.cur.write("<%# note -%> \t\nx<%# note2 -%>\r\n")
 	case 22:
@@ -1779,6 +1844,8 @@ func (g *gen) failingPiece() {
 		{"index-of-unknown-identifier", "zq[0]"},
 		{"deep-method-on-unknown-identifier", "zq.a.b(1)"},
 		{"env-of-unset-variable", `env("VERIF_ENV_MISSING")`},
+		{"float-argument-for-int-parameter", "obj.Add(1.5, 1)"},
+		{"int-argument-for-string-parameter", "obj.Greet(65)"},
 		{"json-of-func", "json(pv)"},
 		// operations on literals only (nothing of the context enters)
 		{"literal-division-by-zero", "10 / 0"},
@@ -1895,6 +1962,11 @@ var brokenTags = []string{
 	"<%= for (i, v) xs { %>\nbody\n\n<% } %>",
 	"<%= if n1 { %>\nbody\n<% } %>",
 	"<%= fn(a { return a } %>\nx\n<%= 1 ^ 2 %>\n<% let = 3 %>",
+	// an opening bracket or a comma right before the closing delimiter: the unexpected token is the text that follows
+	"<%= foo(n1, %>",
+	"<%= foo( %>",
+	"<% let q = [1, 2, %>",
+	"<%= {\"a\": 1, %>",
 	// number literals the parser cannot convert
 	"<%= 99999999999999999999 %>",
 	"<%= n1 + 18446744073709551616 %>",
@@ -1971,6 +2043,13 @@ func genProgram(t *rapid.T, o genOpts) *Program {
 			continue
 		}
 		g.piece(o.maxDepth)
+	}
+	if o.lateLet && len(p.Tolerant) > 0 && g.pct("latelet", 60) {
+		g.feat("late_let_of_the_tolerated_name")
+		g.text()
+		g.frames = 0
+		g.tag("<%", "let zz = 7", "%>")
+		g.tag("<%=", "zz", "%>")
 	}
 	g.text()
 	p.Main = g.cur.sb.String()
